@@ -142,7 +142,17 @@ class Prog:
                         items.append(d)
                     rl.append({"items": items, "caret": r.caret, "opt": [list(o) for o in r.opt], "line": r.line,
                                "tree": r.tree, "ifs": r.ifs})
-                passes.append({"index": pidx, "table": ttype, "rules": rl})
+                pd = {"index": pidx, "table": ttype, "rules": rl}
+                if self.raw_gdl is None:
+                    # what the pass's directives denote in the pass header of the font: flag bits 0-2 = CollisionFix,
+                    # bits 3-4 = AutoKern, bit 5 = direction flipped (never asked for here); MaxRuleLoop (default 5),
+                    # MaxBackup (default 0)
+                    opt = self.pass_opts.get((self.tables.index((ttype, ps)), [k for k, x in enumerate(ps) if x is rules][0]), "")
+                    dv = dict((m.group(1), int(m.group(2))) for m in re.finditer(r"(\w+)\s*=\s*(\d+)", opt))
+                    pd["flags"] = dv.get("CollisionFix", 0) | (dv.get("AutoKern", 0) << 3)
+                    pd["maxRuleLoop"] = dv.get("MaxRuleLoop", 5)
+                    pd["maxBackup"] = dv.get("MaxBackup", 0)
+                passes.append(pd)
                 pidx += 1
         def conv(t):
             k = t["k"]
@@ -1359,6 +1369,28 @@ def add_collision_pass_then_rules(rng, prog):
             # automatic kerning on a pass that also has rules (the engine consults the skip bits for such a pass)
             prog.pass_opts[(len(prog.tables) - 1, pi)] = "{AutoKern = %d}" % rng.choice([1, 1, 2])
     prog.glyph_stmts = list(prog.glyph_stmts) + ["cCollAll = glyphid(2..%d) {collision.flags = 1};" % (prog.nglyphs - 1)]
+
+
+def add_pass_directives(rng, prog):
+    """Directives on the passes: MaxRuleLoop and MaxBackup anywhere, CollisionFix and AutoKern (0 NONE, 1 FULL, 2 NOSPACE)
+    on positioning passes. The IR records what the pass header of the font has to say (Prog.ir)."""
+    for ti, (ttype, passes) in enumerate(prog.tables):
+        for pi in range(len(passes)):
+            if (ti, pi) in prog.pass_opts:
+                continue
+            ds = []
+            if rng.random() < 0.5:
+                ds.append("MaxRuleLoop = %d" % rng.choice([1, 2, 7, 30, 255]))
+            if rng.random() < 0.4:
+                ds.append("MaxBackup = %d" % rng.choice([1, 3, 20]))
+            if ttype == "pos":
+                if rng.random() < 0.6:
+                    ds.append("CollisionFix = %d" % rng.choice([1, 2, 3, 7]))
+                if rng.random() < 0.6:
+                    ds.append("AutoKern = %d" % rng.choice([1, 2, 2]))
+            if ds:
+                prog.pass_opts[(ti, pi)] = "{" + "; ".join(ds) + "}"
+    return prog
 
 
 def add_pass_splits(rng, prog, prob=0.6):
